@@ -76,6 +76,32 @@ class SiteCx:
             for f in forms:
                 if self.symbols_stable(f, a, s, blk):
                     out.append(f)
+        return out + self.origin_facts()
+
+    def origin_facts(self):
+        """Facts that hold by construction of a value, wherever it is used: the payload of
+        `s.iter().position(..)` / `str::find(..)` on s is an index < len(s) (also when unwrapped by `?`)."""
+        if hasattr(self, "_ofacts"):
+            return self._ofacts
+        b = self.b
+        out = []
+        for bi, t in b.calls(r"Iterator::position$|slice::<impl \[T\]>::iter$"):
+            pass
+        for bi, t in b.calls(r"Iterator::position$"):
+            src = b.origin_def(t["args"][0])
+            if not (src and src[0] == "def" and src[1]["kind"] == "call" and re.search(r"slice::<impl \[T\]>::iter$", src[1]["term"]["callee"])):
+                continue
+            ln = "len(%s)" % self.lin.root_key(src[1]["term"]["args"][0])
+            holders = [t["dest"]["local"]]
+            for tb, tt in b.calls(r"ops::Try::branch$"):
+                od = b.origin_def(tt["args"][0])
+                if od and od[0] == "def" and od[1]["kind"] == "call" and od[1]["block"] == bi:
+                    holders.append(tt["dest"]["local"])
+            for h in holders:
+                # the symbol Lin.form gives to `(h as Some).0` / `(h as Continue).0`
+                out.append({"pay:_%d.0" % h: 1, ln: -1, 1: 1})
+                out.append({"pay:_%d.0" % h: -1, 1: 0})  # an index is not negative
+        self._ofacts = out
         return out
 
     def symbols_stable(self, form, a, s, blk):
@@ -291,7 +317,7 @@ def d_assert(cx, bi, t):
                     return None
                 if isinstance(sym, str) and sym.startswith("len("):
                     w += c
-                elif isinstance(sym, str) and (sym.startswith("L") or sym.startswith("field:")):
+                elif isinstance(sym, str) and (sym.startswith("L") or sym.startswith("field:") or sym.startswith("pay:")):
                     # bounded above by a length through a stable fact  sym - len(..) + k <= 0
                     okb = any(f.get(sym, 0) >= 1 and any(isinstance(s2, str) and s2.startswith("len(") and c2 < 0 for s2, c2 in f.items()) for f in facts)
                     if not okb:
